@@ -1,7 +1,4 @@
 SPECIFICATION Spec
 CONSTANT WithPairs = FALSE
-INVARIANT NominalOnNpu
-INVARIANT PairsAreCpu
-INVARIANT WellFormed
 INVARIANT Emit
 CHECK_DEADLOCK FALSE
